@@ -186,6 +186,45 @@ class FutureReplacementCheck(BaseCheck):
                              'minutes_B': specB['minutes'], 'prefix_events': len(pa), 'first_diff': d}
         return res
 
+    def minimise(self, payload, test, violation, budget_s):
+        """shorten both futures: B to one candle after the cut, A to a few candles after the cut"""
+        import time
+        deadline = time.monotonic() + budget_s
+        fp = violation['fingerprint']
+        cut = payload['cut']
+        best = payload
+        steps = []
+
+        def trunc(p, side, minutes):
+            q = copy.deepcopy(p)
+            sp = q[side]
+            w = sp.get('warmup', 0)
+            if minutes >= sp['minutes']:
+                return None
+            sp['minutes'] = minutes
+            for s_ in list(sp['candles']):
+                sp['candles'][s_] = sp['candles'][s_][:w + minutes]
+            return q
+
+        def fails(p):
+            try:
+                r = test(p)
+            except Exception:
+                return False
+            return any(v['fingerprint'] == fp for v in r.get('violations', []))
+        for side, extras in (('specB', (1, 16)), ('specA', (1, 5, 16, 61))):
+            for extra in extras:
+                if time.monotonic() >= deadline:
+                    break
+                cand = trunc(best, side, cut + extra)
+                if cand is not None and fails(cand):
+                    best = cand
+                    steps.append(f'{side} minutes -> cut+{extra}')
+                    break
+        best = dict(best)
+        best['minimised'] = steps
+        return best
+
     def replay(self, payload):
         specA = _fix_spec(copy.deepcopy(payload['specA']))
         specB = _fix_spec(copy.deepcopy(payload['specB']))
@@ -315,6 +354,44 @@ class SchedulerSwapCheck(BaseCheck):
         if arg.get('want_sample'):
             res['sample'] = {'spec': R.jsonable(R.spec_summary(spec)), 'fills_normal': R.jsonable(fn[:8]), 'precondition': pre}
         return res
+
+    def minimise(self, payload, test, violation, budget_s):
+        import time
+        deadline = time.monotonic() + budget_s
+        fp = violation['fingerprint']
+        sp = payload['spec']
+        best = payload
+        steps = []
+        d = violation.get('detail') or {}
+        at = None
+        for side in ('normal', 'fast'):
+            x = d.get(side)
+            if isinstance(x, list) and len(x) == 6 and x[5]:
+                at = max(at or 0, int(x[5]))
+        if at:
+            tfm = TF_MIN[sp['routes'][0]['timeframe']]
+            m = int((at - sp['start_ts']) // 60_000)
+            for extra in (tfm, 4 * tfm):
+                n = ((m + extra) // tfm + 1) * tfm
+                if n >= sp['minutes'] or time.monotonic() >= deadline:
+                    continue
+                cand = copy.deepcopy(best)
+                w = cand['spec'].get('warmup', 0)
+                cand['spec']['minutes'] = n
+                for s_ in list(cand['spec']['candles']):
+                    cand['spec']['candles'][s_] = cand['spec']['candles'][s_][:w + n]
+                try:
+                    r = test(cand)
+                    ok = any(v['fingerprint'] == fp for v in r.get('violations', []))
+                except Exception:
+                    ok = False
+                if ok:
+                    best = cand
+                    steps.append(f'minutes -> {n}')
+                    break
+        best = dict(best)
+        best['minimised'] = steps
+        return best
 
     def replay(self, payload):
         spec = _fix_spec(copy.deepcopy(payload['spec']))
